@@ -14,7 +14,9 @@ On target: the range of a hover or prepareRename answer must be exactly the span
 the line that contains the cursor; every location of references / rename must be exactly the
 span of a lexeme spelling that symbol; a document link must cover exactly the include path; an
 UNDECLARED_COMMODITY diagnostic exactly a commodity; fold regions and outline symbols of
-different entries must be nested or disjoint.
+different entries must be nested or disjoint; a workspace symbol's range is exactly a lexeme of its kind
+(account, commodity, payee) spelling its name; an outline symbol starts at column 0 of the first line of an entry
+and is named after that entry (its date / its directive's subject).
 """
 import collections
 import json
@@ -305,6 +307,54 @@ def evaluate(docs, lexs, name, res, tally):
                 spans = {(lx["c0"], lx["c1"]) for lx in (lex[l] if l < len(lex) else []) if lx["k"] == "incpath"}
                 if r["start"]["line"] != r["end"]["line"] or (r["start"]["character"], r["end"]["character"]) not in spans:
                     add("documentLink:off-target", "link range %s does not cover exactly the include path %s of %r" % (fmt_range(r), sorted(spans), doc.lines[l] if l < doc.nlines() else None))
+        if kind == "workspaceSymbol":
+            # a workspace symbol names an account (kind 5, Class), a commodity (10, Enum) or a payee (12, Function):
+            # its range covers exactly one lexeme of that kind spelling that name
+            lexkind = {5: "account", 10: "commodity", 12: "payee"}
+            for sy in reply:
+                loc = sy.get("location") or {}
+                r = loc.get("range")
+                dd, rn = doc_of(loc.get("uri"))
+                k = lexkind.get(int(sy.get("kind") or 0))
+                if not r or dd is None or rn not in lexs or k is None:
+                    continue
+                tally["on_target_checked"] += 1
+                allowed = name_spans(lexs[rn], {k}, {sy.get("name")})
+                key = (r["start"]["line"], r["start"]["character"], r["end"]["character"])
+                if r["start"]["line"] != r["end"]["line"] or key not in allowed:
+                    add("workspaceSymbol:off-target", "workspace symbol %s %r: range %s in %s is not an occurrence of it (line %r)" % (
+                        k, sy.get("name"), fmt_range(r), rn, dd.lines[r["start"]["line"]] if r["start"]["line"] < dd.nlines() else None))
+        if kind == "documentSymbol":
+            # an outline symbol starts on the first line of an entry of the journal (a transaction header or a
+            # directive line: a line that begins with a date or a directive lexeme)
+            for sy in reply:
+                r = sy.get("range")
+                if not r:
+                    continue
+                for rr, nm in ((r, "range"), (sy.get("selectionRange") or r, "selectionRange")):
+                    l0 = rr["start"]["line"]
+                    tally["on_target_checked"] += 1
+                    first = lex[l0][0] if l0 < len(lex) and lex[l0] else None
+                    if first is None or first["c0"] != 0 or first["k"] not in ("date", "directive") or rr["start"]["character"] != 0:
+                        add("documentSymbol:off-target", "outline symbol %r: its %s %s does not start at the beginning of an entry (line %r)" % (
+                            sy.get("name"), nm, fmt_range(rr), doc.lines[l0] if l0 < doc.nlines() else None))
+                        break
+                # the name of the symbol is spelled on that first line: the directive's subject or the header's date
+                l0 = r["start"]["line"]
+                if l0 < len(lex) and lex[l0] and lex[l0][0]["c0"] == 0:
+                    nm = sy.get("name") or ""
+                    fl = lex[l0]
+                    if fl[0]["k"] == "date":
+                        import re as _re
+                        m = _re.match(r"(\d+)[-/.](\d+)[-/.](\d+)$", fl[0]["t"])
+                        want = "%04d-%02d-%02d" % tuple(int(x) for x in m.groups()) if m else None
+                        if want and not nm.startswith(want):
+                            add("documentSymbol:wrong-entry", "outline symbol %r lies on the transaction of %r" % (nm, doc.lines[l0]))
+                    elif fl[0]["t"] in ("account", "commodity", "include") and len(fl) > 1 and nm.startswith(fl[0]["t"] + " "):
+                        subj = nm[len(fl[0]["t"]) + 1:]
+                        texts = [x["t"] for x in fl[1:]] + [x["t"][1:-1] for x in fl[1:] if x["t"].startswith('"')]
+                        if not any(subj == t or (x_k == "format" and subj and subj in t) for t, x_k in [(x["t"], x["k"]) for x in fl[1:]] + [(t, "") for t in texts]):
+                            add("documentSymbol:wrong-entry", "outline symbol %r lies on the directive %r" % (nm, doc.lines[l0]))
         if kind in ("documentSymbol", "foldingRange"):
             ivs = []
             if kind == "documentSymbol":
